@@ -268,6 +268,9 @@ def validate(run, module, trace_files, name, invariants=("Done",), extra_constan
         viols += v[0]
         if s:
             stats.append(s[0])
+        for c in parse_printed(out, "CALIB"):
+            run.cov.setdefault("calibration_misses", [])
+            run.cov["calibration_misses"] += c
         run.cov["tv"].append({"module": module, "lines": nlines, "states": int(m.group(2)), "wall_s": round(time.time() - t0, 2)})
         run.cov["states"] += int(m.group(2))
         run.cov["transitions"] += int(m.group(1))
